@@ -78,3 +78,53 @@ Lemma tie_writer_set_block_size : TIE_writer_set_block_size =
   [(0, "if(block_size<MIN_BLOCK_SIZE)block_size=MIN_BLOCK_SIZE");
    (0, "opt->block_size=block_size")].
 Proof. reflexivity. Qed.
+
+(* src/mtbl_info.c: print_info *)
+Lemma tie_info_print : TIE_info_print =
+  [(0, "intfd,ret");
+   (0, "structstatss");
+   (0, "structmtbl_reader*r");
+   (0, "conststructmtbl_metadata*m");
+   (0, "fd=open(fname,O_RDONLY)");
+   (0, "if(fd<0)");
+   (1, "fprintf(stderr,""Error:unabletoopenfile%s:%s\n"",fname,strerror(errno))");
+   (1, "exit(EXIT_FAILURE)");
+   (0, "ret=fstat(fd,&ss)");
+   (0, "if(ret<0)");
+   (1, "perror(""Error:fstat"")");
+   (1, "exit(EXIT_FAILURE)");
+   (0, "r=mtbl_reader_init_fd(fd,NULL)");
+   (0, "if(r==NULL)");
+   (1, "fprintf(stderr,""Error:mtbl_reader_init_fd()on%sfailed\n"",fname)");
+   (1, "exit(EXIT_FAILURE)");
+   (0, "m=mtbl_reader_metadata(r)");
+   (0, "uint64_tdata_block_size=mtbl_metadata_data_block_size(m)");
+   (0, "mtbl_compression_typecompression_algorithm=mtbl_metadata_compression_algorithm(m)");
+   (0, "uint64_tcount_entries=mtbl_metadata_count_entries(m)");
+   (0, "uint64_tcount_data_blocks=mtbl_metadata_count_data_blocks(m)");
+   (0, "uint64_tbytes_data_blocks=mtbl_metadata_bytes_data_blocks(m)");
+   (0, "uint64_tbytes_index_block=mtbl_metadata_bytes_index_block(m)");
+   (0, "uint64_tbytes_keys=mtbl_metadata_bytes_keys(m)");
+   (0, "uint64_tbytes_values=mtbl_metadata_bytes_values(m)");
+   (0, "uint64_tindex_block_offset=mtbl_metadata_index_block_offset(m)");
+   (0, "doublep_data=100.0*bytes_data_blocks/ss.st_size");
+   (0, "doublep_index=100.0*bytes_index_block/ss.st_size");
+   (0, "doublecompactness=100.0*ss.st_size/(bytes_keys+bytes_values)");
+   (0, "printf(""filename:%s\n"",fname)");
+   (0, "printf(""filesize:%'zd\n"",(size_t)ss.st_size)");
+   (0, "printf(""indexblockoffset:%'""PRIu64""\n"",index_block_offset)");
+   (0, "printf(""indexbytes:%'""PRIu64""(%'.2f%%)\n"",bytes_index_block,p_index)");
+   (0, "printf(""datablockbytes%'""PRIu64""(%'.2f%%)\n"",bytes_data_blocks,p_data)");
+   (0, "printf(""datablocksize:%'""PRIu64""\n"",data_block_size)");
+   (0, "printf(""datablockcount%'""PRIu64""\n"",count_data_blocks)");
+   (0, "printf(""entrycount:%'""PRIu64""\n"",count_entries)");
+   (0, "printf(""keybytes:%'""PRIu64""\n"",bytes_keys)");
+   (0, "printf(""valuebytes:%'""PRIu64""\n"",bytes_values)");
+   (0, "printf(""compressionalgorithm:"")");
+   (0, "constchar*compression=mtbl_compression_type_to_str(compression_algorithm)");
+   (0, "if(compression!=NULL)puts(compression)");
+   (0, "elseprintf(""%u\n"",compression_algorithm)");
+   (0, "printf(""compactness:%'.2f%%\n"",compactness)");
+   (0, "putchar('\n')");
+   (0, "mtbl_reader_destroy(&r)")].
+Proof. reflexivity. Qed.
